@@ -31,27 +31,3 @@ def units():
                            ensures=["result == " + bits_spec('g_am', AUTHS, 1)]),
                   harness=dict(imports="from ssh_audit.ssh1_publickeymessage import SSH1_PublicKeyMessage", setup="m = SSH1_PublicKeyMessage(b'12345678', (1, 1, 1), (1, 1, 1), 0, g_cm, g_am)", call="m.supported_authentications")))
     return U
-
-
-def parse_units():
-    """SSH1_PublicKeyMessage.parse: the fields of the object are the fields of the wire message, in SSH-1.5 order (cookie[8], server key
-    (bits, mpint e, mpint n), host key (bits, mpint e, mpint n), flags, cipher mask, authentication mask); only struct.error can escape"""
-    let = {
-        'B1': '(val_be(payload[12:14]) + 7) // 8', 'A2': '14 + len(payload[14:14 + B1])',
-        'B2': '(val_be(payload[A2:A2 + 2]) + 7) // 8', 'A3': 'A2 + 2 + len(payload[A2 + 2:A2 + 2 + B2])',
-        'A4': 'A3 + 4',
-        'B4': '(val_be(payload[A4:A4 + 2]) + 7) // 8', 'A5': 'A4 + 2 + len(payload[A4 + 2:A4 + 2 + B4])',
-        'B5': '(val_be(payload[A5:A5 + 2]) + 7) // 8', 'A6': 'A5 + 2 + len(payload[A5 + 2:A5 + 2 + B5])',
-    }
-    ens = ["result.cookie == payload[0:8]",
-           "result.server_key_bits == val_be(payload[8:12])",
-           "result.server_key_public_exponent == val_be(payload[14:14 + B1])",
-           "result.server_key_public_modulus == val_be(payload[A2 + 2:A2 + 2 + B2])",
-           "result.host_key_bits == val_be(payload[A3:A3 + 4])",
-           "result.host_key_public_exponent == val_be(payload[A4 + 2:A4 + 2 + B4])",
-           "result.host_key_public_modulus == val_be(payload[A5 + 2:A5 + 2 + B5])",
-           "result.protocol_flags == val_be(payload[A6:A6 + 4])",
-           "result.supported_ciphers_mask == val_be(payload[A6 + 4:A6 + 8])",
-           "result.supported_authentications_mask == val_be(payload[A6 + 8:A6 + 12])"]
-    return [Unit(Contract('SSH1_PublicKeyMessage.parse', params=dict(payload='bytes'), raises={}, may_raise={'struct.error': 'True'}, let=let, ensures=ens),
-                 harness=None)]
